@@ -251,13 +251,14 @@ def sendreply (w : World) (o : Nat) : World :=
   | none => w
   | some r =>
     match r.frm with
-    | none => w
+    | none => freerq w o       -- (no caller gets here: a request being answered came from an association; total so that
+                               --  the reference handed over is accounted for on every path)
     | some ci =>
       let rb := replyBytes w r (secretOfCli w ci)
       let w := setRq w o { r with replybuf := rb, msg := none }
       match rb with
       | none => freerq w o
-      | some _ => updCli w ci fun c => { c with replyq := c.replyq ++ [o] }
+      | some _ => if (getCli w ci).isSome then updCli w ci fun c => { c with replyq := c.replyq ++ [o] } else freerq w o
 
 /-- `respond(rq, code, addattr, add_msg_auth)` -/
 def respond (w : World) (o : Nat) (code : UInt8) (addattr : Option Tlv) (addMA : Bool) : World :=
